@@ -338,28 +338,41 @@ theorem lex_lam (s : List Nat) {n : List Nat} (hn : WfName cls n) (i : Nat) :
     tokenizeClaAux cls (.lam [] true) i (n ++ cDot :: s)
       = (CLambda n :: ·) <$> tokenizeClaAux cls .top (i + n.length + 1) s := by
   obtain ⟨⟨c, cs, rfl, hal, _, hrest⟩, hall⟩ := hn
-  have hc : c ≠ cDot := (hall c (by simp)).2.2.2
+  have hc : c ≠ cDot := (hall c (by simp)).2.2.2.1
   have := lex_lam_rest (cls := cls) s cs [c] (i + 1)
-    (fun d hd => ⟨hrest d hd, (hall d (by simp [hd])).2.2.2⟩)
+    (fun d hd => ⟨hrest d hd, (hall d (by simp [hd])).2.2.2.1⟩)
   simp only [List.cons_append, tokenizeClaAux, hc, beq_iff_eq, if_false, hal, Bool.true_and,
     if_true, List.nil_append, this, List.length_cons]
   congr 2; omega
 
-/-- inside a variable name: everything but whitespace and parentheses is accumulated -/
+/-- inside a variable name: everything but whitespace, parentheses and the backslash is
+accumulated -/
 theorem lex_name_rest (s : List Nat) (n : List Nat) :
     ∀ (acc : List Nat) (i : Nat),
-      (∀ d ∈ n, cls.isWs d = false ∧ d ≠ cLparen ∧ d ≠ cRparen) →
+      (∀ d ∈ n, cls.isWs d = false ∧ d ≠ cLparen ∧ d ≠ cRparen ∧ d ≠ cBackslash) →
       tokenizeClaAux cls (.name acc) i (n ++ s)
         = tokenizeClaAux cls (.name (acc ++ n)) (i + n.length) s := by
   induction n with
   | nil => intro acc i _; simp
   | cons d n ih =>
     intro acc i h
-    obtain ⟨h1, h2, h3⟩ := h d (by simp)
+    obtain ⟨h1, h2, h3, h4⟩ := h d (by simp)
     have := ih (acc ++ [d]) (i + 1) (fun e he => h e (by simp [he]))
-    simp only [List.cons_append, tokenizeClaAux, h1, h2, h3, beq_iff_eq, if_false, this,
+    simp only [List.cons_append, tokenizeClaAux, h1, h2, h3, h4, beq_iff_eq, if_false, this,
       List.append_assoc, List.length_cons, Bool.false_eq_true]
     congr 1; omega
+
+/-- whitespace is not a backslash (`ClsOk`: whitespace is not a lambda glyph) -/
+theorem ws_ne_backslash (hcls : ClsOk cls) {c : Nat} (hc : cls.isWs c = true) : c ≠ cBackslash := by
+  rintro rfl
+  have := (hcls _ hc).1
+  revert this; decide
+
+/-- a backslash ends a variable name and opens a binder -/
+theorem lex_name_backslash (acc : List Nat) (i : Nat) (s : List Nat) :
+    tokenizeClaAux cls (.name acc) i (cBackslash :: s)
+      = (CName acc :: ·) <$> tokenizeClaAux cls (.lam [] true) (i + 1) s := by
+  simp [tokenizeClaAux]
 
 /-- a delimiter (or the end of the input) ends a variable name and is then lexed at top level -/
 theorem lex_name_end (hcls : ClsOk cls) {s : List Nat} (hs : NameEnd cls s) (acc : List Nat)
@@ -368,19 +381,23 @@ theorem lex_name_end (hcls : ClsOk cls) {s : List Nat} (hs : NameEnd cls s) (acc
   cases s with
   | nil => simp only [tokenizeClaAux]; rfl
   | cons c s =>
-    rcases hs with hw | rfl | rfl
-    · rw [lex_top_ws hcls hw]; simp [tokenizeClaAux, hw]
+    rcases hs with hw | rfl | rfl | rfl
+    · have hb : c ≠ cBackslash := ws_ne_backslash hcls hw
+      rw [lex_top_ws hcls hw]; simp [tokenizeClaAux, hw, hb]
     · have hw : cls.isWs cLparen = false := by
         cases h : cls.isWs cLparen with
         | false => rfl
         | true => exact absurd rfl (hcls _ h).2.1
-      rw [lex_top_lparen, except_map_map]; simp [tokenizeClaAux, hw]
+      have hb : (cLparen == cBackslash) = false := by decide
+      rw [lex_top_lparen, except_map_map]; simp [tokenizeClaAux, hw, hb]
     · have hw : cls.isWs cRparen = false := by
         cases h : cls.isWs cRparen with
         | false => rfl
         | true => exact absurd rfl (hcls _ h).2.2
       have h2 : (cRparen == cLparen) = false := by decide
-      rw [lex_top_rparen, except_map_map]; simp [tokenizeClaAux, hw, h2]
+      have hb : (cRparen == cBackslash) = false := by decide
+      rw [lex_top_rparen, except_map_map]; simp [tokenizeClaAux, hw, h2, hb]
+    · rw [lex_name_backslash, lex_top_glyph (by decide)]
 
 /-- a whole variable name followed by a delimiter -/
 theorem lex_name (hcls : ClsOk cls) {n s : List Nat} (hn : WfName cls n) (hs : NameEnd cls s)
@@ -391,7 +408,7 @@ theorem lex_name (hcls : ClsOk cls) {n s : List Nat} (hn : WfName cls n) (hs : N
   obtain ⟨h1, h2, h3, _⟩ := hall c (by simp)
   rw [List.cons_append, lex_top_alpha hg h2 h3 h1 hal,
     lex_name_rest s cs [c] (i + 1) (fun d hd =>
-      let ⟨a, b, c, _⟩ := hall d (by simp [hd]); ⟨a, b, c⟩),
+      let ⟨a, b, c, _, e⟩ := hall d (by simp [hd]); ⟨a, b, c, e⟩),
     lex_name_end hcls hs]
   simp only [List.cons_append, List.nil_append, List.length_cons]
   congr 2; omega
@@ -423,19 +440,25 @@ theorem parse_cla_render_indep (cls : CharCls) (hcls : Cl.ClsOk cls) (cts : List
     tokenizeCla_render cls hcls cts s₂ h₂]
 
 /-- under the natural Unicode facts (letters are alphanumeric; alphanumeric characters are not
-whitespace, parentheses or the dot) a well-formed name is just: a letter other than `λ`, then
-alphanumeric characters -/
+whitespace, parentheses or the dot; the backslash is not alphanumeric) a well-formed name is just:
+a letter other than `λ`, then alphanumeric characters -/
 theorem wfName_of_unicode (cls : CharCls)
     (h1 : ∀ c, cls.isAlpha c = true → cls.isAlnum c = true)
     (h2 : ∀ c, cls.isAlnum c = true →
       cls.isWs c = false ∧ c ≠ cLparen ∧ c ≠ cRparen ∧ c ≠ cDot)
+    (h3 : cls.isAlnum cBackslash = false)
     (c : Nat) (cs : List Nat) (hc : cls.isAlpha c = true) (hg : isLam c = false)
     (hcs : ∀ d ∈ cs, cls.isAlnum d = true) : Cl.WfName cls (c :: cs) := by
   refine ⟨⟨c, cs, rfl, hc, hg, hcs⟩, ?_⟩
+  have hb : ∀ d, cls.isAlnum d = true → d ≠ cBackslash := by
+    rintro d hd rfl
+    rw [h3] at hd; cases hd
   intro d hd
   rcases List.mem_cons.1 hd with rfl | hd
-  · exact h2 _ (h1 _ hc)
-  · exact h2 _ (hcs d hd)
+  · obtain ⟨a, b, c, e⟩ := h2 _ (h1 _ hc)
+    exact ⟨a, b, c, e, hb _ (h1 _ hc)⟩
+  · obtain ⟨a, b, c, e⟩ := h2 _ (hcs d hd)
+    exact ⟨a, b, c, e, hb _ (hcs d hd)⟩
 
 /-! ### lexical errors -/
 
@@ -458,7 +481,7 @@ theorem wfName_not_endsTop {n : List Nat} (hn : WfName cls n) : ¬ EndsTop cls n
   cases hl : (c :: cs).getLast? with
   | none => simp at hl
   | some d =>
-    obtain ⟨h1, h2, h3, h4⟩ := hall d (List.mem_of_getLast? hl)
+    obtain ⟨h1, h2, h3, h4, _⟩ := hall d (List.mem_of_getLast? hl)
     rcases h d hl with h' | h' | h' | h'
     · rw [h1] at h'; cases h'
     · exact h2 h'
@@ -471,44 +494,106 @@ theorem nameEnd_append {s : List Nat} (hs : NameEnd cls s) (hne : s ≠ []) (res
   | nil => exact absurd rfl hne
   | cons c s => exact hs
 
+/-- after a rendering the lexer has produced its tokens and continues at top level with whatever
+follows, provided the rendering ends at top level or — if it ends inside a name — what follows may
+end a name (e.g. starts with a backslash) -/
+theorem lex_prefix' (hcls : ClsOk cls) {ts : List CToken} {pre : List Nat}
+    (h : Renders cls ts pre) :
+    ∀ (i : Nat) (rest : List Nat), (EndsTop cls pre ∨ NameEnd cls rest) →
+      tokenizeClaAux cls .top i (pre ++ rest)
+        = (ts ++ ·) <$> tokenizeClaAux cls .top (i + pre.length) rest := by
+  induction h with
+  | nil =>
+    intro i rest _
+    cases h : tokenizeClaAux cls .top i rest <;> simp [h] <;> rfl
+  | @ws c cts s hc _ ih =>
+    intro i rest he
+    rw [List.cons_append, lex_top_ws hcls hc, ih _ _ (he.imp endsTop_of_cons id)]
+    simp only [List.length_cons]; congr 2; omega
+  | @lparen cts s _ ih =>
+    intro i rest he
+    rw [List.cons_append, lex_top_lparen, ih _ _ (he.imp endsTop_of_cons id), except_map_map]
+    simp only [List.length_cons, List.cons_append]; congr 2; omega
+  | @rparen cts s _ ih =>
+    intro i rest he
+    rw [List.cons_append, lex_top_rparen, ih _ _ (he.imp endsTop_of_cons id), except_map_map]
+    simp only [List.length_cons, List.cons_append]; congr 2; omega
+  | @lam g n cts s hg hn _ ih =>
+    intro i rest he
+    have he' : EndsTop cls s ∨ NameEnd cls rest :=
+      he.imp (fun h => endsTop_of_cons (endsTop_of_append (a := n) (endsTop_of_cons h))) id
+    rw [List.cons_append, List.append_assoc, List.cons_append, lex_top_glyph hg, lex_lam _ hn,
+      ih _ _ he', except_map_map]
+    simp only [List.length_cons, List.length_append, List.cons_append]; congr 2; omega
+  | @name n cts s hn hs _ ih =>
+    intro i rest he
+    have hs' : NameEnd cls (s ++ rest) := by
+      cases s with
+      | nil =>
+        rcases he with he | he
+        · rw [List.append_nil] at he
+          exact absurd he (wfName_not_endsTop hn)
+        · exact he
+      | cons c s => exact hs
+    rw [List.append_assoc, lex_name hcls hn hs', ih _ _ (he.imp endsTop_of_append id),
+      except_map_map]
+    simp only [List.length_append, List.cons_append]; congr 2; omega
+
 /-- after a rendering that ends at top level the lexer has produced its tokens and continues at
 top level with whatever follows -/
 theorem lex_prefix (hcls : ClsOk cls) {ts : List CToken} {pre : List Nat}
     (h : Renders cls ts pre) :
     EndsTop cls pre → ∀ (i : Nat) (rest : List Nat),
       tokenizeClaAux cls .top i (pre ++ rest)
-        = (ts ++ ·) <$> tokenizeClaAux cls .top (i + pre.length) rest := by
-  induction h with
-  | nil =>
-    intro _ i rest
-    cases h : tokenizeClaAux cls .top i rest <;> simp [h] <;> rfl
-  | @ws c cts s hc _ ih =>
-    intro he i rest
-    rw [List.cons_append, lex_top_ws hcls hc, ih (endsTop_of_cons he)]
-    simp only [List.length_cons]; congr 2; omega
-  | @lparen cts s _ ih =>
-    intro he i rest
-    rw [List.cons_append, lex_top_lparen, ih (endsTop_of_cons he), except_map_map]
-    simp only [List.length_cons, List.cons_append]; congr 2; omega
-  | @rparen cts s _ ih =>
-    intro he i rest
-    rw [List.cons_append, lex_top_rparen, ih (endsTop_of_cons he), except_map_map]
-    simp only [List.length_cons, List.cons_append]; congr 2; omega
-  | @lam g n cts s hg hn _ ih =>
-    intro he i rest
-    have he' : EndsTop cls s :=
-      endsTop_of_cons (endsTop_of_append (a := n) (endsTop_of_cons he))
-    rw [List.cons_append, List.append_assoc, List.cons_append, lex_top_glyph hg, lex_lam _ hn,
-      ih he', except_map_map]
-    simp only [List.length_cons, List.length_append, List.cons_append]; congr 2; omega
-  | @name n cts s hn hs _ ih =>
-    intro he i rest
-    have hne : s ≠ [] := by
-      rintro rfl
-      rw [List.append_nil] at he
-      exact wfName_not_endsTop hn he
-    rw [List.append_assoc, lex_name hcls hn (nameEnd_append hs hne rest), ih (endsTop_of_append he), except_map_map]
-    simp only [List.length_append, List.cons_append]; congr 2; omega
+        = (ts ++ ·) <$> tokenizeClaAux cls .top (i + pre.length) rest :=
+  fun he i rest => lex_prefix' hcls h i rest (Or.inl he)
+
+/-- renderings compose: after a rendering that ends at top level — or, if it ends inside a name,
+when what follows may end a name (whitespace, a parenthesis, a backslash, the end of the input) —
+any rendering may follow -/
+theorem renders_append {ts₁ ts₂ : List CToken} {pre s : List Nat}
+    (h₁ : Renders cls ts₁ pre) (h₂ : Renders cls ts₂ s) :
+    (EndsTop cls pre ∨ NameEnd cls s) → Renders cls (ts₁ ++ ts₂) (pre ++ s) := by
+  induction h₁ with
+  | nil => intro _; exact h₂
+  | ws hc _ ih => intro he; exact .ws hc (ih (he.imp endsTop_of_cons id))
+  | lparen _ ih => intro he; exact .lparen (ih (he.imp endsTop_of_cons id))
+  | rparen _ ih => intro he; exact .rparen (ih (he.imp endsTop_of_cons id))
+  | @lam g n cts s' hg hn _ ih =>
+    intro he
+    have he' : EndsTop cls s' ∨ NameEnd cls s :=
+      he.imp (fun h => endsTop_of_cons (endsTop_of_append (a := n) (endsTop_of_cons h))) id
+    have := Renders.lam hg hn (ih he')
+    rw [List.cons_append, List.cons_append, List.append_assoc, List.cons_append]
+    exact this
+  | @name n cts s' hn hs _ ih =>
+    intro he
+    have hs' : NameEnd cls (s' ++ s) := by
+      cases s' with
+      | nil =>
+        rcases he with he | he
+        · rw [List.append_nil] at he
+          exact absurd he (wfName_not_endsTop hn)
+        · exact he
+      | cons c s' => exact hs
+    have := Renders.name hn hs' (ih (he.imp endsTop_of_append id))
+    rw [List.cons_append, List.append_assoc]
+    exact this
+
+/-- whitespace may be inserted in front of any rendering -/
+theorem renders_ws_prefix {ts : List CToken} {s : List Nat} (h : Renders cls ts s) (ws : List Nat)
+    (hws : ∀ w ∈ ws, cls.isWs w = true) : Renders cls ts (ws ++ s) := by
+  induction ws with
+  | nil => exact h
+  | cons w ws ih =>
+    exact .ws (hws w (by simp)) (ih (fun v hv => hws v (by simp [hv])))
+
+/-- whitespace followed by a backslash may end a name, and so may the backslash alone -/
+theorem nameEnd_ws_backslash (ws s : List Nat) (hws : ∀ w ∈ ws, cls.isWs w = true) :
+    NameEnd cls (ws ++ cBackslash :: s) := by
+  cases ws with
+  | nil => exact Or.inr (Or.inr (Or.inr rfl))
+  | cons w ws => exact Or.inl (hws w (by simp))
 
 /-- inside a binder, after its first character: alphanumeric characters are accumulated -/
 theorem lex_lam_acc (rest : List Nat) (n : List Nat) :
@@ -570,6 +655,48 @@ theorem tokenizeCla_invalid_binder (cls : CharCls) (hcls : Cl.ClsOk cls)
       Bool.false_eq_true, List.length_cons]
     have e : 0 + pre.length + 1 + 1 + as.length = pre.length + 1 + (as.length + 1) := by omega
     rw [e]; rfl
+
+/-- the same when the binder directly follows a variable name, which is possible with the backslash
+glyph (it ends the name): the prefix `pre` may be ANY rendering of complete tokens
+(e.g. `x\1` ↦ `InvalidCharacter 2 '1'`) -/
+theorem tokenizeCla_invalid_binder_backslash (cls : CharCls) (hcls : Cl.ClsOk cls)
+    (ts₀ : List CToken) (pre : List Nat) (nm : List Nat) (c : Nat) (post : List Nat)
+    (hpre : Cl.Renders cls ts₀ pre)
+    (hnm : ∀ a as, nm = a :: as →
+      cls.isAlpha a = true ∧ a ≠ cDot ∧ ∀ d ∈ as, cls.isAlnum d = true ∧ d ≠ cDot)
+    (hdot : c ≠ cDot)
+    (hbad : if nm = [] then cls.isAlpha c = false else cls.isAlnum c = false) :
+    tokenizeCla cls (pre ++ cBackslash :: (nm ++ c :: post))
+      = .error (.InvalidCharacter (pre.length + 1 + nm.length) c) := by
+  unfold tokenizeCla
+  have hne : NameEnd cls (cBackslash :: (nm ++ c :: post)) := Or.inr (Or.inr (Or.inr rfl))
+  rw [lex_prefix' hcls hpre 0 _ (Or.inr hne),
+    lex_top_glyph (show isLam cBackslash = true by decide)]
+  cases nm with
+  | nil =>
+    simp only [if_true] at hbad
+    simp [tokenizeClaAux, hdot, hbad]
+    rfl
+  | cons a as =>
+    obtain ⟨ha, had, has⟩ := hnm a as rfl
+    simp only [reduceCtorEq, if_false] at hbad
+    have := lex_lam_acc (cls := cls) (c :: post) as [a] (0 + pre.length + 1 + 1) has
+    simp only [List.cons_append, List.nil_append] at this
+    simp only [List.cons_append, tokenizeClaAux, had, beq_iff_eq, if_false, ha, Bool.true_and,
+      if_true, List.nil_append, this, hdot, hbad, Bool.false_and, Bool.and_false,
+      Bool.false_eq_true, List.length_cons]
+    have e : 0 + pre.length + 1 + 1 + as.length = pre.length + 1 + (as.length + 1) := by omega
+    rw [e]; rfl
+
+/-- WHITESPACE BEFORE A BACKSLASH BINDER: a variable name may be followed directly by a backslash
+binder; with or without whitespace in between the string renders the same named tokens
+(`pre`: any rendering that ends at top level, so that the name `n` starts a token) -/
+theorem renders_name_backslash (cls : CharCls) (ts₀ cts : List CToken) (pre n ws s : List Nat)
+    (hpre : Cl.Renders cls ts₀ pre) (hend : Cl.EndsTop cls pre) (hn : Cl.WfName cls n)
+    (hws : ∀ w ∈ ws, cls.isWs w = true) (hs : Cl.Renders cls cts (cBackslash :: s)) :
+    Cl.Renders cls (ts₀ ++ CName n :: cts) (pre ++ (n ++ (ws ++ cBackslash :: s))) :=
+  renders_append hpre
+    (.name hn (nameEnd_ws_backslash ws s hws) (renders_ws_prefix hs ws hws)) (Or.inl hend)
 
 /-! ### name resolution vs. the standard named → De Bruijn translation on trees -/
 
@@ -968,7 +1095,9 @@ theorem asciiCls_ok : ClsOk asciiCls := by
 theorem wf_single (c : Nat) (h1 : asciiCls.isAlpha c = true) (h2 : isLam c = false)
     (h3 : asciiCls.isWs c = false) (h4 : c ≠ cLparen) (h5 : c ≠ cRparen) (h6 : c ≠ cDot) :
     WfName asciiCls [c] :=
-  ⟨⟨c, [], rfl, h1, h2, by simp⟩, by simp [h3, h4, h5, h6]⟩
+  ⟨⟨c, [], rfl, h1, h2, by simp⟩, by
+    have h7 : c ≠ cBackslash := by rintro rfl; revert h2; decide
+    simp [h3, h4, h5, h6, h7]⟩
 
 theorem wf_x : WfName asciiCls [120] := wf_single 120 (by decide) (by decide) (by decide) (by decide) (by decide) (by decide)
 theorem wf_y : WfName asciiCls [121] := wf_single 121 (by decide) (by decide) (by decide) (by decide) (by decide) (by decide)
@@ -1048,9 +1177,25 @@ example : tokenizeCla asciiCls [120, 32, 35, 120] = .error (.InvalidCharacter 2 
     (by decide) (by decide) (by decide) (by decide) (by decide)
 
 /-- OBSERVATION (faithful to the Rust lexer): only binder names are validated.  In variable
-position every character other than whitespace and parentheses continues a name, so `x+1.λ` is
-one (free) variable name … -/
+position every character other than whitespace, parentheses and the backslash continues a name, so
+`x+1.λ` is one (free) variable name … -/
 example : tokenizeCla asciiCls [120, 43, 49, 46, 955] = .ok [CName [120, 43, 49, 46, 955]] := rfl
+
+/-- … but a backslash ends a name and opens a binder: `x\y.y` is `x`, `\y.`, `y` -/
+example : tokenizeCla asciiCls [120, 92, 121, 46, 121]
+    = .ok [CName [120], CLambda [121], CName [121]] := rfl
+
+/-- `x\y.y` is a rendering of these tokens (no separator needed before a backslash) -/
+theorem renders₆ : Renders asciiCls [CName [120], CLambda [121], CName [121]]
+    [120, 92, 121, 46, 121] :=
+  .name (n := [120]) wf_x (Or.inr (Or.inr (Or.inr rfl))) <|
+  .lam (g := 92) (n := [121]) (by decide) wf_y <|
+  .name (n := [121]) wf_y trivial .nil
+
+/-- `x\1`: the binder opened by the backslash is validated as usual -/
+example : tokenizeCla asciiCls [120, 92, 49] = .error (.InvalidCharacter 2 49) :=
+  tokenizeCla_invalid_binder_backslash asciiCls asciiCls_ok [CName [120]] [120] [] 49 []
+    (.name (n := [120]) wf_x trivial .nil) (by intro a as h; cases h) (by decide) (by decide)
 
 /-- … while the same characters are rejected inside a binder: `λx+.x` -/
 example : tokenizeCla asciiCls [955, 120, 43, 46, 120] = .error (.InvalidCharacter 2 43) := rfl
